@@ -120,6 +120,20 @@ func loadFindings() ([]finding, error) {
 	return out, nil
 }
 
+// matchForeignKnown looks a crash signature up among the known findings of the other properties.
+func matchForeignKnown(fs []finding, own, sig string) *finding {
+	seen := map[string]bool{}
+	for _, f := range fs {
+		if f.Status == "known" && f.Property != own && !seen[f.Property] {
+			seen[f.Property] = true
+			if m := matchKnown(fs, f.Property, sig); m != nil {
+				return m
+			}
+		}
+	}
+	return nil
+}
+
 func matchKnown(fs []finding, prop, sig string) *finding {
 	for i := range fs {
 		f := &fs[i]
@@ -189,6 +203,13 @@ func cmdCheck(args []string) int {
 	if n := envInt("VERIF_RUNS", -1); n >= 0 {
 		nSeeded = int(n)
 	}
+	// VERIF_CASES=sweep:12,seed:99 runs exactly these cases (debugging aid; the tier still decides
+	// how a sweep index is read)
+	var onlyCases []string
+	if v := os.Getenv("VERIF_CASES"); v != "" {
+		onlyCases = strings.Split(v, ",")
+		nSweep, nSeeded = len(onlyCases), 0
+	}
 	childTimeout := time.Duration(meta.ChildTimeoutS) * time.Second
 	if ms := envInt("VERIF_CHILD_TIMEOUT_MS", 0); ms > 0 {
 		childTimeout = time.Duration(ms) * time.Millisecond // for testing the time-out path of the orchestrator
@@ -232,6 +253,8 @@ func cmdCheck(args []string) int {
 	var wg sync.WaitGroup
 	var deferredMu sync.Mutex
 	var deferred []job
+	var foreignMu sync.Mutex
+	foreignSeen := map[string]int{}
 	for w := 0; w < workers; w++ {
 		wg.Add(1)
 		go func() {
@@ -265,6 +288,20 @@ func cmdCheck(args []string) int {
 					deferredMu.Unlock()
 					continue
 				}
+				if o.Res == nil && !o.TimedOut {
+					// the child died of a fatal runtime error.  When the frame it died in is a known
+					// finding of ANOTHER property (the unbounded allocations of the NDR decoder, which
+					// C04 owns, also kill runs of other engines that deliver a damaged PAC), the run
+					// is counted under that finding instead of being reported as a harness error here
+					sig := genericCrashSignature(spec.Engine, o.Stderr)
+					if f := matchForeignKnown(findings, spec.Prop, sig); f != nil {
+						o.Res = &core.Result{Engine: spec.Engine, Case: j.kase, Verdict: "ok", Evals: 1, Class: "died-of-known-finding-of-" + f.Property,
+							Stats: map[string]int64{"runs_killed_by_known_finding_of_" + f.Property: 1}, Faults: map[string]int{}, Probes: map[string]int{}}
+						foreignMu.Lock()
+						foreignSeen[f.Property+"|"+f.Signature]++
+						foreignMu.Unlock()
+					}
+				}
 				if o.Res != nil && o.Res.Case == "" {
 					o.Res.Case = j.kase
 				}
@@ -289,7 +326,9 @@ func cmdCheck(args []string) int {
 		defer close(jobs)
 		for i := 0; i < total; i++ {
 			var k string
-			if i < nSweep {
+			if i < len(onlyCases) {
+				k = onlyCases[i]
+			} else if i < nSweep {
 				k = fmt.Sprintf("sweep:%d", i)
 			} else {
 				s := seedRng.U64() >> 1
@@ -509,6 +548,11 @@ func cmdCheck(args []string) int {
 		if f.Status == "known" && f.Property == spec.Prop {
 			n := knownSeen[f.Signature]
 			fmt.Printf("KNOWN-FINDING: property=%s %s [signature %s; seen %d times in this batch]\n", spec.Prop, f.What, f.Signature, n)
+		}
+	}
+	for _, f := range findings {
+		if n := foreignSeen[f.Property+"|"+f.Signature]; n > 0 && f.Status == "known" {
+			fmt.Printf("KNOWN-FINDING: property=%s %s [signature %s; killed %d runs of this batch of %s]\n", f.Property, f.What, f.Signature, n, spec.Prop)
 		}
 	}
 	for _, s := range sigList {
